@@ -6,8 +6,10 @@ from collections import defaultdict, deque
 
 
 class Body:
-    def __init__(self, path, js, crate):
-        self.path = path
+    def __init__(self, id_, js, crate):
+        self.id = id_
+        self.path = js.get('path', id_)
+        self.name = strip_generics(self.path)
         self.js = js
         self.crate = crate
         self.kind = js['kind']
@@ -267,25 +269,26 @@ class Crate:
         self.impls = js['impls']
         self.bodies = {p: Body(p, b, self) for p, b in js['bodies'].items()}
 
-    def body(self, path):
-        return self.bodies.get(path)
-
     def find(self, suffix):
         """bodies whose generic-free path ends with suffix"""
-        out = []
-        for p, b in self.bodies.items():
-            if strip_generics(p).endswith(suffix):
-                out.append(b)
-        return out
+        return [b for b in self.bodies.values() if b.name.endswith(suffix)]
+
+    def named(self, name):
+        return [b for b in self.bodies.values() if b.name == name]
 
     def children(self, body):
         """closures/coroutines directly nested in body"""
-        pre = body.path + '::{'
-        return [b for p, b in self.bodies.items() if p.startswith(pre) and '::{' not in p[len(pre):].split('}', 1)[1]]
+        return [b for b in self.bodies.values() if b.parent == body.id and b.kind in ('closure', 'coroutine')]
 
     def descendants(self, body):
-        pre = body.path + '::{'
-        return [b for p, b in self.bodies.items() if p.startswith(pre)]
+        out = []
+        todo = [body]
+        while todo:
+            x = todo.pop()
+            for c in self.children(x):
+                out.append(c)
+                todo.append(c)
+        return out
 
 
 def load_crate(path):
